@@ -16,8 +16,31 @@ from vt.run import Part, HarnessError
 
 ID = "C08"
 LEVEL = "exploration"
-RULE = ""
-ASSUMPTIONS = []
+RULE = ("Hypothesis caption scripts (vt/gen_scc.py) from the three channel-1 protocol grammars - pop-on [ENM] RCL (PAC [TO] text)+ [EDM] EOC "
+        "... [EDM]; roll-up RU2|3|4 CR PAC text (CR [PAC] text)* [EDM]; paint-on RDC (PAC [TO] text)+ EDM - rows 1-15, indents 0-28 + TO1-3, "
+        "1-4 rows, standard/special/extended characters (extended after a fallback character), PAC and mid-row colour/italics/underline, "
+        "backspace, doubled control codes, null padding after complete pairs, channel-2 bursts and field-2 codes before a channel-1 control "
+        "code, parity set/cleared/mixed, several SCC lines at DF/NDF time codes with gaps, upper/lower-case hex x text_align "
+        "auto/left/center/right; labelled classes: undoubled control codes, rows sent out of order, roll-up base row other than 15, "
+        "CR without PAC, padding inside a displayed row, paint-on captions accumulating on blank rows, back-to-back mid-row codes, "
+        "pop-on load over leftover non-displayed memory (text unasserted), mode switches after EDM. One evaluation = one stream, "
+        "compared with the reference decoder at the first/last/middle (+-1) frame of every interval between transition windows and on "
+        "every paragraph begin/end; non-trivial = >= 2 captions, >= 2 rows in one of them and >= 1 attribute change; distinct by case hash.")
+ASSUMPTIONS = [
+  "oracle: vt/ref_608_decoder.py, a 15x32 cell-grid CEA-608 decoder written from 47 CFR 15.119 (self-tested on hand-computed "
+  "scenarios); word classification tables are those verified exhaustively by C17",
+  "word k of a line with time code tc is on the air during frame tc+k; a change caused by it may be placed anywhere from the start of "
+  "the command run that leads to it (counting a redundant second copy of a control code as taking no frame, as ttconv does) to "
+  "tc+k+2; frames inside such windows are not compared (ttconv times paint-on and roll-up text per word/row, not per character pair)",
+  "ttconv does not model transparent cells or columns: row text is compared with leading/trailing blanks stripped, interior "
+  "characters exact; attributes are compared on non-blank characters only and colour as one of eight classes",
+  "roll-up row numbers are asserted for base row 15 only (ttconv documents that it anchors roll-up at row 15); attributes set by a "
+  "roll-up PAC for rows 5-11, after CR without PAC, and by back-to-back mid-row codes other than colour+italics are not asserted",
+  "a pop-on load that starts while non-displayed memory still holds an older caption (no ENM) is a labelled class whose displayed "
+  "text is not asserted (no encoder relies on it)",
+  "not generated: text mode, flash, DER, background attributes, overwriting displayed cells, two PACs on one row, "
+  "a caption of another style starting while the previous one is still displayed",
+]
 
 ROW_OF_Y = {round((r + 1) * 100 / 19): r for r in range(1, 16)}    # region origin y (percent of a 19-row root grid, 2 rows of margin)
 ALIGN = {"auto": TextAlignment.AUTO, "left": TextAlignment.LEFT, "center": TextAlignment.CENTER, "right": TextAlignment.RIGHT}
@@ -26,14 +49,41 @@ ALIGN = {"auto": TextAlignment.AUTO, "left": TextAlignment.LEFT, "center": TextA
 def selftest():
   rtc.selftest()
   refdec.selftest()
-  assert len(ROW_OF_Y) == 15
+  if len(ROW_OF_Y) != 15:
+    raise HarnessError("row <-> origin mapping is not injective")
+  # encoders against the classification tables of C17
+  for row in range(1, 16):
+    for ind in range(0, 32, 4):
+      c = tab.classify(g.enc_pac(row, ind, ul=True))
+      assert c[0] == "pac" and c[1] == 1 and (c[2]["row"], c[2]["indent"], c[2]["underline"], c[2]["color"]) == (row, ind, True, "white")
+    for col in g.COLORS:
+      c = tab.classify(g.enc_pac(row, 0, col, form="style"))
+      assert (c[2]["row"], c[2]["color"], c[2]["italic"], c[2]["indent"]) == (row, col, False, 0)
+    assert tab.classify(g.enc_pac(row, 0, "white", True))[2]["italic"] and tab.classify(g.enc_pac(row, 0, chan=2))[1] == 2
+  for n in g.CTL:
+    assert tab.classify(g.enc_ctl(n)) == ("control", 1, n) and tab.classify(g.enc_ctl(n, 2)) == ("control", 2, n)
+    assert tab.classify(g.enc_ctl(n, field=2)) == ("control", None, n)
+  for i in (1, 2, 3):
+    assert tab.classify(g.enc_ctl("TO%d" % i)) == ("control", 1, "TO%d" % i)
+  for ch in g.SPECIALS:
+    assert tab.classify(g.enc_special(ch)) == ("special", 1, ch)
+  for ch in g.EXTENDED:
+    assert tab.classify(g.enc_extended(ch)) == ("extended", 1, ch)
+  for col in g.COLORS + [None]:
+    c = tab.classify(g.enc_mid(col, True))
+    assert c[0] == "midrow" and c[2]["color"] == col and c[2]["italic"] == (col is None) and c[2]["underline"]
+  assert g.timecode(True, 1800) == "00:01:00;02" and g.timecode(False, 1800) == "00:01:00:00"
 
 
 # ------------------------------------------------------------------------------------------------ reference timeline
 
 class Timeline:
-  """events: (word index j, lo, hi, screen after, mode): the displayed memory of the reference decoder changes at word j, which
-  is on the air during frame tc+k; a reader may place the change anywhere in [lo, hi] (see RULE)."""
+  """events: (word index j, lo, hi, screen after, mode): the displayed memory of the reference decoder is (re)written at word j, which
+  is on the air during frame tc+k.  The reader may place the change anywhere in [lo, hi]:
+    lo = tc + (index of the first word of the command run leading to word j) - (redundant control-code copies before it on the line)
+    hi = tc + k + 2
+  The command run is the stretch of words before j on the same line that are neither channel-1 characters nor display changes
+  (mode command, CR, PAC, tab offset, padding, other-channel data)."""
 
   def __init__(self, flat):
     dec = refdec.Decoder(1)
@@ -46,8 +96,6 @@ class Timeline:
       changed.append(ch)
       if not ch:
         continue
-      # command run leading to the change: preceding words of the same line that are not channel-1 characters and did not
-      # themselves change the display
       i = j
       while i > 0 and words[i - 1]["line"] == w["line"] and not changed[i - 1] and \
           not (words[i - 1]["chan"] == 1 and words[i - 1]["what"] == "text"):
@@ -57,8 +105,9 @@ class Timeline:
       hi = w["tc"] + w["k"] + 2
       self.events.append((j, lo, hi, dec.screen(), dec.mode))
     self.last = (words[-1]["tc"] + words[-1]["k"] + 2) if words else 0
+    self.final_screen = dec.screen()
     # merged uncertainty windows [lo, hi-1] and the stable intervals between them
-    self.stable = []       # (first frame, last frame, screen, mode, index of the last applied event or -1)
+    self.stable = []       # (first frame, last frame, screen, mode, word index of the last applied event or -1)
     cur = self.first - 3
     screen, mode, applied = (), None, -1
     n = 0
@@ -66,12 +115,12 @@ class Timeline:
     while n < len(ev):
       lo, hi = ev[n][1], ev[n][2]
       m = n
-      while m + 1 < len(ev) and ev[m + 1][1] <= hi - 1 + 0:
+      while m + 1 < len(ev) and ev[m + 1][1] <= hi - 1:
         m += 1
         hi = max(hi, ev[m][2])
       if lo - 1 >= cur:
         self.stable.append((max(cur, 0), lo - 1, screen, mode, applied))
-      screen, mode, applied = ev[m][3], ev[m][4], m
+      screen, mode, applied = ev[m][3], ev[m][4], ev[m][0]
       cur = hi
       n = m + 1
     self.stable.append((max(cur, 0), max(cur, self.last) + 4, screen, mode, applied))
@@ -99,6 +148,7 @@ class Para:
 
 
 def read_paragraphs(doc, res):
+  """paragraphs through model getters: begin/end, region origin -> first row, display align, br-separated rows of styled spans"""
   out = []
   body = doc.get_body()
   if body is None:
@@ -113,10 +163,10 @@ def read_paragraphs(doc, res):
       q.begin = p.get_begin()
       q.end = p.get_end()
       region = p.get_region()
-      q.style = (region.get_id() if region is not None else "")[:3]
       if region is None:
         res.fail("document-shape", "paragraph %s without region" % q.id)
         continue
+      q.style = {"pop": "pop", "rol": "roll", "pai": "paint"}.get(region.get_id()[:3], "other")
       origin = region.get_style(styles.StyleProperties.Origin)
       q.anchor = "after" if region.get_style(styles.StyleProperties.DisplayAlign) == styles.DisplayAlignType.after else "before"
       q.top = ROW_OF_Y.get(origin.y.value) if origin is not None and origin.y.units == styles.LengthType.Units.pct else None
@@ -139,7 +189,7 @@ def read_paragraphs(doc, res):
 
 
 def observe(paras, t):
-  """rows shown at time t: [(row or None, text, attrs)] top to bottom, text stripped of leading/trailing blanks"""
+  """rows shown at time t: [(row or None, text, attrs, style)] top to bottom, text stripped of leading/trailing blanks"""
   rows = []
   for q in paras:
     b = q.begin or 0
@@ -174,16 +224,12 @@ def text_eq(got, exp):
   return len(got) == len(exp) and all(char_eq(a, b) for a, b in zip(got, exp))
 
 
-def show(rows):
-  return " / ".join("%s:%r" % (r[0], r[2] if len(r) > 3 and isinstance(r[2], str) else r[1]) for r in rows) or "(blank)"
-
-
 def show_ref(screen):
-  return " / ".join("%d:%r" % (r, t) for r, _, t, _ in screen) or "(blank)"
+  return " / ".join("%d:%r" % (r[0], r[2]) for r in screen) or "(blank)"
 
 
 def show_got(rows):
-  return " / ".join("%s:%r" % (r, t) for r, t, _, _ in rows) or "(blank)"
+  return " / ".join("%s:%r" % (r[0], r[1]) for r in rows) or "(blank)"
 
 
 def check(case, res):
@@ -195,6 +241,7 @@ def check(case, res):
     res.label(l)
   res.label("align:" + case["align"], "timecode:" + ("DF" if flat.df else "NDF"))
   res.label("parity:" + ("odd" if script["pmask"] == -1 else "cleared" if script["pmask"] == 0 else "mixed"))
+  res.label("lines:%s" % min(len(flat.lines), 9), "captions:%d" % flat.ncaps)
   res.nontrivial = flat.ncaps >= 2 and flat.max_rows >= 2 and flat.attr_changes >= 1
   try:
     doc = to_model(text, SccReaderConfiguration(text_align=ALIGN[case["align"]]))
@@ -202,74 +249,116 @@ def check(case, res):
     res.crash(e)
     return
   tl = Timeline(flat)
+  if tl.final_screen != ():
+    raise HarnessError("generator: the stream does not end with a blank screen")
   paras = read_paragraphs(doc, res)
-  feat = feature(flat)
-  # -- timing clauses
-  tcs = sorted({w["tc"] for w in flat.words})
+  tcname = "DF" if flat.df else "NDF"
+  # -- timing clauses: exact frame multiple, not before the line's time code, inside the transmission window of a display change
   for q in paras:
     for which, v in (("begin", q.begin), ("end", q.end)):
       if v is None:
         if which == "end":
-          res.fail("timing:open-ended-paragraph" + feat, "%s has no end although the stream erases everything" % q.id)
+          res.fail("timing:open-ended-paragraph:" + q.style, "%s has no end although the stream ends with EDM\n%s" % (q.id, text))
         continue
       fr = Fraction(v) * rate
       if fr.denominator != 1:
-        res.fail("timing:not-a-frame-multiple:" + ("DF" if flat.df else "NDF"), "%s %s=%s s is %s frames at %s fps" % (q.id, which, v, fr, rate))
+        res.fail("timing:not-a-frame-multiple:" + tcname, "%s %s=%s s is %s frames at %s fps\n%s" % (q.id, which, v, fr, rate, text))
         continue
       f = int(fr)
       if not any(lo <= f <= hi for _, lo, hi, _, _ in tl.events):
         near = min(tl.events, key=lambda e: min(abs(e[1] - f), abs(e[2] - f))) if tl.events else None
-        res.fail("timing:%s-outside-transmission-window:%s%s" % (which, q.style, feat),
-                 "%s %s at frame %d (%s); nearest display change of the reference: word %s window [%s, %s]\n%s" % (
+        res.fail("timing:%s-outside-transmission-window:%s:%s" % (which, q.style, tcname),
+                 "%s %s at frame %d (%s); nearest display change of the reference: word #%s, window [%s, %s]\n%s" % (
                    q.id, which, f, g.timecode(flat.df, f), near and near[0], near and g.timecode(flat.df, near[1]),
                    near and g.timecode(flat.df, near[2]), text))
   # -- frame by frame, outside the transition windows
-  nprobe = 0
-  for a, b, screen, mode, _ in tl.stable:
+  nprobe = nskip = 0
+  for a, b, screen, mode, applied in tl.stable:
+    unasserted = flat.unassert_from is not None and applied >= flat.unassert_from
     for f in probes(a, b):
-      nprobe += 1
       got = observe(paras, Fraction(f) / rate)
-      compare(flat, text, f, screen, mode, got, res, feat)
+      if unasserted:
+        nskip += 1
+        continue
+      nprobe += 1
+      compare(flat, text, f, screen, mode, got, res)
   res.labels["probe-frames"] += nprobe
+  res.labels["probe-frames-unasserted"] += nskip
 
 
-def feature(flat):
-  return ""
-
-
-def compare(flat, text, f, screen, mode, got, res, feat):
+def compare(flat, text, f, screen, mode, got, res):
   where = "frame %d (%s)" % (f, g.timecode(flat.df, f))
   m = mode or "none"
   if len(got) != len(screen) or any(not text_eq(gr[1], sr[2]) for gr, sr in zip(got, screen)):
-    if [gr[1] for gr in got] != [sr[2] for sr in screen]:
-      kind = "rows" if len(got) != len(screen) else "text"
-      res.fail("%s:%s%s" % (kind, m, feat), "%s: document shows %s, reference decoder shows %s\n%s" % (where, show_got(got), show_ref(screen), text))
-      return
+    kind = "rows" if len(got) != len(screen) else "text"
+    feat = ""
+    if mode == "roll" and "row-ends-with-mid-row-code" in flat.labels:
+      feat = ":row-ends-with-mid-row-code"
+    res.fail("%s:%s%s" % (kind, m, feat), "%s: document shows %s, reference decoder shows %s\n%s" % (where, show_got(got), show_ref(screen), text))
+    return
   if mode != "roll" or "roll:base-row-not-15" not in flat.labels:
     if [gr[0] for gr in got] != [sr[0] for sr in screen]:
+      feat = ":caption-below-earlier-paint-on-caption" if mode == "paint" and "paint:caption-below-earlier-paint-on-caption" in flat.labels else ""
       res.fail("row-number:%s%s" % (m, feat), "%s: document shows %s, reference decoder shows %s\n%s" % (where, show_got(got), show_ref(screen), text))
   for gr, sr in zip(got, screen):
     for i, exp in enumerate(sr[3]):
       if exp is None:
         continue
       ga = gr[2][i]
+      tag = ":" + sr[4][i] if sr[4][i] else ""
       for n, name in enumerate(("color", "italic", "underline")):
         if ga[n] != exp[n]:
-          res.fail("attr:%s:%s%s" % (name, m, feat), "%s row %d %r char %d %r: %s %r expected %r\n%s" % (
+          res.fail("attr:%s:%s%s" % (name, m, tag), "%s row %d %r char %d %r: %s %r expected %r\n%s" % (
             where, sr[0], sr[2], i, sr[2][i], name, ga[n], exp[n], text))
 
 
 def cases(prof):
   def strat(tier):
-    return st.builds(lambda s, a, u: {"script": s, "align": a, "upper": u}, g.scripts(prof), st.sampled_from(["auto", "auto", "left", "center", "right"]),
-                     st.booleans())
+    return st.builds(lambda s, a, u: {"script": s, "align": a, "upper": u}, g.scripts(prof),
+                     st.sampled_from(["auto", "auto", "left", "center", "right"]), st.booleans())
   return strat
+
+
+def finish(ctx):
+  lab = ctx.acc.labels
+  n = max(1, ctx.acc.evaluations)
+  ctx.extra["label_fractions"] = {k: round(v / n, 3) for k, v in sorted(lab.items()) if not k.startswith("probe-") and k != "regression-replays"}
+  ctx.extra["probe_frames"] = lab.get("probe-frames", 0)
+  if lab.get("probe-frames", 0) < 3 * ctx.acc.evaluations:
+    raise HarnessError("fewer than 3 compared frames per stream")
 
 
 SHRINK = g.shrinker("script")
 
+# main classes: everything the quantifier names, control codes doubled; the triggers of findings C-1, C-2 and C-3 are kept out by construction
 P_POP = g.profile(styles=("pop",))
+P_ROLL = g.profile(styles=("roll",))
+P_PAINT = g.profile(styles=("paint",))
+P_MIXED = g.profile(mix=True, max_caps=6)
+# labelled classes (asserted like the main ones unless stated in ASSUMPTIONS)
+P_CLASSES = g.profile(mix=True, undoubled=True, row_order=True, roll_base=True, pad_inside=True, paint_accumulate=True, mid_runs=True,
+                      pop_leftover=True)
+# dedicated parts that keep exercising the triggers of the known findings
+P_C1 = g.profile(styles=("paint",), paint_c1=True, max_caps=4)
+P_C2 = g.profile(italics_on_colour=True, max_caps=3)
+P_C3 = g.profile(styles=("roll",), trailing_mid=True, max_caps=3)
+
+COMMON = ("null-padding", "channel-2-burst", "field-2-code", "tab-offset", "pac-attributes", "mid-row-code", "special-char", "extended-char",
+          "backspace", "timecode:DF", "timecode:NDF", "parity:odd", "parity:cleared", "parity:mixed", "align:auto", "align:left",
+          "align:center", "align:right", "caption-spans-lines")
 
 PARTS = {
-  "pop": Part("pop", check, strategy=cases(P_POP), n=(320, 48000), shrinker=SHRINK),
+  "pop": Part("pop", check, strategy=cases(P_POP), n=(1600, 160000), shrinker=SHRINK,
+              required_labels=COMMON + ("pop:ENM", "pop:EDM-before-EOC", "pop:EDM-after", "row-reaches-column-32")),
+  "roll": Part("roll", check, strategy=cases(P_ROLL), n=(1600, 160000), shrinker=SHRINK,
+               required_labels=COMMON[:-1] + ("roll:RU2", "roll:RU3", "roll:RU4", "roll:CR-without-PAC", "roll:EDM-after")),
+  "paint": Part("paint", check, strategy=cases(P_PAINT), n=(1600, 160000), shrinker=SHRINK, required_labels=COMMON + ("paint:EDM-after",)),
+  "mixed": Part("mixed", check, strategy=cases(P_MIXED), n=(800, 80000), shrinker=SHRINK, required_labels=("mode-switch",)),
+  "classes": Part("classes", check, strategy=cases(P_CLASSES), n=(1200, 120000), shrinker=SHRINK,
+                  required_labels=("undoubled-control", "roll:base-row-not-15", "pad-inside-displayed-row", "paint:accumulates-without-EDM",
+                                   "mid-row-run", "pop:load-over-leftover", "mode-switch")),
+  "c1": Part("c1", check, strategy=cases(P_C1), n=(320, 16000), shrinker=SHRINK,
+             required_labels=("paint:caption-below-earlier-paint-on-caption",)),
+  "c2": Part("c2", check, strategy=cases(P_C2), n=(320, 16000), shrinker=SHRINK),
+  "c3": Part("c3", check, strategy=cases(P_C3), n=(320, 16000), shrinker=SHRINK, required_labels=("row-ends-with-mid-row-code",)),
 }
